@@ -69,6 +69,14 @@ for tag, f in FILES.items():
                       slices=[region_a(f, "while\\(!p_input\\.getline\\(")], unwind_loops=A_LOOPS_UNWOUND, unwind=3,
                       min_obligations=60, tier="quick",
                       mutants=[m for m in A_MUTANTS if m["name"] in ("realloc_old_size", "getline_len_plus_one", "buf_pos_after_bump", "buf_pos_past_size", "buf_realloc_dropped", "tmp_not_grown")]))
+    # NOT registered in props/C13.json (fails on the unchanged tree, see the final report / proposed known finding): the same
+    # inductive step without the input assumption "no line of INT_MAX - LEN or more characters"
+    insts.append(dict(common, name="growstep_" + tag + "_2g",
+                      function=FN[tag] + ": growth loop, inductive step WITHOUT the assumption that lines are shorter than INT_MAX - SOPLEX_LPF_MAX_LINE_LEN characters",
+                      defines={"INST_growstep": "", "NO_LINE_LIMIT": ""}, harness="h_readgrow", enforce="w_readgrow",
+                      slices=[region_a(f, "while\\(!p_input\\.getline\\(")], unwind_loops=A_LOOPS_UNWOUND, unwind=3,
+                      min_obligations=60, tier="thorough",
+                      mutants=[m for m in A_MUTANTS if m["name"] in ("buf_realloc_dropped",)]))
     insts.append(dict(common, name="squeeze_" + tag,
                       function=FN[tag] + ": steps 4a/4b (skip leading blanks, copy pos -> tmp without blanks)",
                       defines={"INST_squeeze": ""}, harness="h_squeeze", enforce="w_squeeze",
@@ -99,6 +107,36 @@ for tag, f in FILES.items():
                            "assigns": ["i", "k", "__CPROVER_object_whole(tmp)", "__CPROVER_object_whole(line)"], "decreases": "g_len - i"}],
                       min_obligations=40, tier="quick", mutants=B2_MUTANTS))
 
+E_MUTANTS = [
+    # the text before commit 4ac7050: the reader's own name sets were freed without running their destructor (leak of their arrays)
+    {"name": "prefix_no_dtor_cnames", "slice": "epilogue.inc", "find": "cnames->~NameSet();", "replace": ""},
+    {"name": "prefix_no_dtor_rnames", "slice": "epilogue.inc", "find": "rnames->~NameSet();", "replace": ""},
+    {"name": "dtor_after_free", "slice": "epilogue.inc", "regex": True,
+     "find": "cnames->~NameSet\\(\\);\\s*spx_free\\(cnames\\);", "replace": "spx_free(cnames); cnames->~NameSet();"},
+    {"name": "frees_callers_rnames", "slice": "epilogue.inc", "find": "if(p_rnames == nullptr)", "replace": "if(rnames != nullptr)"},
+    {"name": "tmp_not_freed", "slice": "epilogue.inc", "find": "spx_free(tmp);", "replace": "spx_free(buf);"},
+    {"name": "returns_true", "slice": "epilogue.inc", "find": "return finished;", "replace": "return true;"},
+]
+for tag, f in FILES.items():
+    insts.append({"name": "epilogue_" + tag,
+                  "constants": [{"name": "SOPLEX_LPF_MAX_LINE_LEN", "file": f, "regex": "#define\\s+SOPLEX_LPF_MAX_LINE_LEN\\s+(\\d+)"}],
+                  "function": FN[tag] + ": epilogue from `syntax_error:` to the end of the function (own name sets destroyed then freed, caller's sets untouched, buf/tmp/line freed once)",
+                  "defines": {"INST_epilogue": ""}, "harness": "h_epilogue", "enforce": "w_epilogue",
+                  "slices": [{"as": "epilogue.inc", "file": f, "nth": 0, "region_start": "syntax_error:", "region_end": "\\n\\}",
+                              "must_contain": ["cnames->~NameSet\\(\\);", "rnames->~NameSet\\(\\);", "return finished;"]}],
+                  "conformance": [
+                      {"file": "src/soplex/nameset.h", "regex": "\\n\\s*~NameSet\\(\\);", "why": "NameSet has a (non-virtual) destructor"},
+                      {"file": "src/soplex/spxalloc.h", "regex": "inline\\s+void\\s+spx_free\\(T&\\s+p\\)\\s*\\{\\s*assert\\(p != nullptr\\);\\s*free\\(p\\);\\s*p = nullptr;\\s*\\}",
+                       "why": "spx_free stub: free(p); p = nullptr"},
+                      {"file": "src/soplex/spxdefines.h", "regex": "#define\\s+SPX_MSG_ERROR\\(x\\)\\s*\\{[^\\n]*\\}\\s*\\n", "why": "SPX_MSG_ERROR is a braced block (the `else SPX_MSG_ERROR(..)` in front of `if(p_cnames == nullptr)` is a complete statement)"},
+                      {"file": "src/soplex/spxdefines.h", "regex": "#define\\s+SPX_MSG_INFO2\\(spxout, x\\)\\s*\\{[^\\n]*\\}\\s*\\n", "why": "SPX_MSG_INFO2 is a braced block"},
+                      {"file": f, "regex": "cnames = \\(p_cnames != nullptr\\) \\? p_cnames : |if\\(p_cnames\\)\\s*cnames = p_cnames;\\s*else",
+                       "why": "cnames is the caller's set when one is given, else readLPF's own"},
+                      {"file": f, "regex": "if\\(p_rnames\\)\\s*rnames = p_rnames;\\s*else",
+                       "why": "rnames is the caller's set when one is given, else readLPF's own"},
+                  ],
+                  "min_obligations": 30, "tier": "quick", "mutants": E_MUTANTS})
+
 unit = {
     "property": ["C13"],
     "desc": "readLPF line-buffer management (real and rational reader): growth of buf/tmp/line while a line is read, blank squeezing "
@@ -107,6 +145,7 @@ unit = {
     "flags": ["--bounds-check", "--pointer-check", "--signed-overflow-check", "--conversion-check", "--no-malloc-may-fail", "--sat-solver", "cadical"],
     "instrument_flags": ["--no-malloc-may-fail"],
     "timeout_s": 280,
+    "replay": {"cpp": "replay.cpp", "extra_src": ["LIB"], "asan": True},
     "conformance": [
         {"file": "src/soplex/spxalloc.h", "regex": "inline\\s+void\\s+spx_realloc\\(T&\\s+p,\\s+int\\s+n\\)\\s*\\{\\s*assert\\(n >= 0\\);.*?if\\(n == 0\\)\\s*n = 1;.*?realloc\\(p,\\s*sizeof\\(\\*p\\)\\s*\\*\\s*\\(unsigned int\\)\\s*n\\)",
          "why": "spx_realloc stub: n == 0 -> 1, sizeof(*p) * (unsigned int) n bytes, assert(n >= 0)"},
@@ -126,6 +165,7 @@ unit = {
         "strlen model (only ever applied to buf, asserted): asserts a terminator witness inside the current capacity, returns the distance to SOME terminator up to the witness (ISO C: the first) - over-approximation; strchr model for the <= 24 character literal in LPFisColName",
         "INT_MAX = 2147483647 (32-bit int); sizeof(tmp) = 8 (LP64 pointer); SPX_MSG_ERROR dropped; fewer than INT_MAX lines (lineno++)",
         "regions B: the code between region A and step 4a (comment removal, keyword and row-name helpers) is not part of this unit; it is ASSUMED to leave buf, tmp, line, buf_size and i == 0 untouched and pos inside [buf, buf + strlen(buf)] (unit lpf_helpers proves the latter for each helper separately); `if(tmp[0] == 0) continue;` between steps 4b and 6 is not part of a region",
+        "epilogue_*: NameSet is a recorder stub (destructor counts calls per object and writes a member), spx_free = free(p); p = nullptr plus a recorder; the name sets and the three buffers are heap objects made by the wrapper; cnames/rnames are the caller's sets iff p_cnames/p_rnames are non-null (conformance-checked at the top of readLPF); leaks of anything allocated elsewhere in readLPF are outside this region",
         "host locals of readLPF are replicated (types conformance-checked); `break` out of the main loop is hosted by a switch, `goto syntax_error` by a label that sets a flag",
     ],
     "instances": insts,
